@@ -1628,7 +1628,14 @@ func (c *Ctx) canon(v ssa.Value) ssa.Value {
 		}
 	}
 	if r, ok := reps[k]; ok {
-		return r
+		if r == v {
+			return r
+		}
+		// the representative must be executed before v on every path, so that the two are
+		// instances read within the same span in which the location does not change
+		if ri, ok := r.(ssa.Instruction); ok && instrBefore(ri, ins) {
+			return r
+		}
 	}
 	return v
 }
@@ -1642,6 +1649,7 @@ func spillOnly(al *ssa.Alloc) bool {
 		return false
 	}
 	stores := 0
+	var theStore *ssa.Store
 	roCall := func(r *ssa.Call) bool {
 		callee := r.Call.StaticCallee()
 		if callee == nil || !readOnlyFunc(callee, 0) {
@@ -1681,9 +1689,10 @@ func spillOnly(al *ssa.Alloc) bool {
 	for _, r := range *refs {
 		switch r := r.(type) {
 		case *ssa.Store:
-			if r.Addr != ssa.Value(al) || r.Block() != al.Parent().Blocks[0] {
+			if r.Addr != ssa.Value(al) {
 				return false
 			}
+			theStore = r
 			stores++
 		case *ssa.FieldAddr:
 			if !readOnly(r, 0) {
@@ -1698,7 +1707,47 @@ func spillOnly(al *ssa.Alloc) bool {
 			return false
 		}
 	}
-	return stores == 1
+	if stores != 1 {
+		return false
+	}
+	// the store is executed before every read (the spill at function entry, or the assignment
+	// of a loop variable at the top of the body)
+	var reads func(v ssa.Value, depth int) bool
+	reads = func(v ssa.Value, depth int) bool {
+		if depth > 4 {
+			return false
+		}
+		for _, r := range *v.Referrers() {
+			switch r := r.(type) {
+			case *ssa.Store, *ssa.DebugRef:
+			case *ssa.FieldAddr:
+				if !reads(r, depth+1) {
+					return false
+				}
+			case ssa.Instruction:
+				if !instrBefore(theStore, r) {
+					return false
+				}
+			}
+		}
+		return true
+	}
+	return reads(al, 0)
+}
+
+// instrBefore: a is executed before b on every path to b (same function).
+func instrBefore(a, b ssa.Instruction) bool {
+	if a.Block() == b.Block() {
+		for _, ins := range a.Block().Instrs {
+			if ins == a {
+				return true
+			}
+			if ins == b {
+				return false
+			}
+		}
+	}
+	return a.Block().Dominates(b.Block())
 }
 
 // ---------------------------------------------------------------------------------------
